@@ -279,9 +279,7 @@ def modular_tables(M, k=3, rng=None):
     order = list(range(M))
     rng.shuffle(order)
     rrows = [[1000000 + j, ' '.join(tok(j + x * M) for x in reversed(range(k)))] for j in order]
-    # a few near misses: two of three tokens shared
-    for j in range(0, M, max(1, M // 8)):
-        rrows.append([2000000 + j, ' '.join([tok(j), tok(j + M), 'zz%d' % j])])
+    # (nothing else in the tables: any other row would change token frequencies and with them the ranks)
     return (T.table_spec(['id', 's'], lrows, dtypes={'s': 'object'}),
             T.table_spec(['id', 's'], rrows, dtypes={'s': 'object'}))
 
